@@ -171,8 +171,9 @@ func prepare() *build {
 		"blocking":   blockingCalls,
 		"go_bin":     gobin,
 		"extra_files": map[string]string{
-			filepath.Join(repoDir, "v2/pkg/engine/resolve/zz_simaccess.go"): filepath.Join(verifDir, "overlay/resolve_simaccess.go"),
-			filepath.Join(repoDir, "execution/engine/zz_simaccess.go"):      filepath.Join(verifDir, "overlay/engine_simaccess.go"),
+			filepath.Join(repoDir, "v2/pkg/engine/resolve/zz_simaccess.go"):                       filepath.Join(verifDir, "overlay/resolve_simaccess.go"),
+			filepath.Join(repoDir, "execution/engine/zz_simaccess.go"):                            filepath.Join(verifDir, "overlay/engine_simaccess.go"),
+			filepath.Join(repoDir, "v2/pkg/engine/datasource/graphql_datasource/zz_simaccess.go"): filepath.Join(verifDir, "overlay/graphql_datasource_simaccess.go"),
 		},
 		"plain_fields": plainFields,
 	}
